@@ -19,7 +19,7 @@ RULE = ('every catalogue block (arithmetic, logic, selection, comparison) at the
         'hand-picked overflow designs (Not wider than its input, Sub below zero, Mul into a narrow result, ShiftLeftConstant by >= w, '
         'Constant/Sequence/RandomValue with negative and oversized values, Reg with oversized/negative reset_value or narrower q, SignExtend '
         'into a narrower result, Div/Mod by zero, memories/MsgSequencer/Latch with narrow outputs, BidirBuf onto a narrow BidirWire, '
-        'StreamCapture and Waveform capture); random netgen compositions with registers; a case is (design, input vector); '
+        'StreamCapture and Waveform capture); every design additionally carries two harness Waveforms over watch lists with repeated wires, a wire plus one of its ports and mixed widths (random order and widest first) whose every sample is range-checked against its own wire and compared with the live value the probe saw in that cycle; random netgen compositions with registers; a case is (design, input vector); '
         'non-trivial = during that case some put/prepare received a raw argument different from the value stored (the block relied on the mask), '
         'measured by the E1 wrapper; distinct by content hash')
 SHARDS = {'quick': 1, 'thorough': 16}
@@ -92,6 +92,8 @@ class Monitor:
         self.label = label
         self.wires = None
         self.nviol = 0
+        self.hist = []          # wire values seen by the clocking-phase probe, one row per clock cycle
+        self.crashed = False
 
     def scan(self, at):
         if self.wires is None:
@@ -100,6 +102,8 @@ class Monitor:
         st['wire_observations'] = st.get('wire_observations', 0) + len(self.wires)
         st['scans_' + at] = st.get('scans_' + at, 0) + 1
         self.run.ev(len(self.wires))
+        if at == 'probe':
+            self.hist.append([w.value for w in self.wires])
         for w in self.wires:
             v = w.value
             if not (isinstance(v, numbers.Integral) and 0 <= v < (1 << w.width)):
@@ -142,6 +146,7 @@ class Monitor:
                     self.run.violation('captured_out_of_range', dict(by=n, relation=relation(badv[0], w)), self.case, observed=badv[:3],
                                        what='%s: StreamCapture recorded %r for a %d-bit wire' % (self.label, badv[0], w))
             elif n == 'Waveform':
+                pos = {id(x): k for k, x in enumerate(self.wires or [])}
                 for wire, data in l.getDict().items():
                     if not hasattr(wire, 'getWidth'):
                         continue
@@ -151,7 +156,61 @@ class Monitor:
                     badv = [v for v in data if relation(v, w) != 'ok']
                     if badv:
                         self.run.violation('captured_out_of_range', dict(by=n, relation=relation(badv[0], w)), self.case, observed=badv[:3],
-                                           what='%s: Waveform recorded %r for a %d-bit wire' % (self.label, badv[0], w))
+                                           what='%s: Waveform %s recorded %r for the %d-bit wire %s' % (self.label, l.name, badv[0], w, wire.getFullPath()))
+                        continue
+                    # every sample is the value the wire itself had in the clocking phase of that cycle (seen by the probe)
+                    if self.crashed or id(wire) not in pos:
+                        continue
+                    if len(data) != len(self.hist):
+                        self.run.violation('captured_count', dict(by=n, relation='fewer' if len(data) < len(self.hist) else 'more'), self.case,
+                                           expected=len(self.hist), observed=len(data),
+                                           what='%s: Waveform %s holds %d samples of %s after %d clock cycles' % (self.label, l.name, len(data), wire.getFullPath(), len(self.hist)))
+                        continue
+                    k = pos[id(wire)]
+                    self.stats['waveform_samples_compared'] = self.stats.get('waveform_samples_compared', 0) + len(data)
+                    for t, v in enumerate(data):
+                        if v != self.hist[t][k]:
+                            self.run.violation('captured_differs_from_wire', dict(by=n), self.case, expected=self.hist[t][k], observed=v,
+                                               what='%s: Waveform %s recorded %r for %s (%d bits) at cycle %d, the wire held %r' % (
+                                                   self.label, l.name, v, wire.getFullPath(), w, t, self.hist[t][k]))
+                            break
+
+
+def add_waveform_observers(hw, rnd, stats):
+    """Harness waveforms over watch lists as users write them: wires of mixed widths, the same wire listed twice, a wire
+    together with one of its InPort/OutPort objects; once in random order and once widest first (a repeated wide wire
+    ahead of narrower ones)."""
+    py4hw = P()
+    wires = [w for w in hooks.all_wires(hw) if type(w).__name__ in ('Wire', 'BidirWire')]
+    if len(wires) < 2:
+        return
+    ports = {}
+    for o in hooks.all_logic(hw):
+        for p in list(o.inPorts) + list(o.outPorts):
+            if p.wire is not None:
+                ports.setdefault(id(p.wire), []).append(p)
+    chosen = rnd.sample(wires, min(len(wires), rnd.randint(2, 6)))
+    lst = list(chosen)
+    nrep = nport = 0
+    for w in rnd.sample(chosen, min(len(chosen), rnd.randint(1, 3))):
+        if ports.get(id(w)) and rnd.random() < 0.5:
+            lst.append(rnd.choice(ports[id(w)]))
+            nport += 1
+        else:
+            lst.append(w)
+            nrep += 1
+
+    def width(x):
+        return (x if hasattr(x, 'getWidth') else x.wire).getWidth()
+    a = list(lst)
+    rnd.shuffle(a)
+    b = sorted(lst, key=lambda x: -width(x))
+    for k, watch in enumerate((a, b)):
+        py4hw.Waveform(hw, 'verif_wv%d' % k, list(watch))
+    stats['waveform_observers'] = stats.get('waveform_observers', 0) + 2
+    stats['watch_entries'] = stats.get('watch_entries', 0) + 2 * len(lst)
+    stats['watch_repeated_wires'] = stats.get('watch_repeated_wires', 0) + 2 * nrep
+    stats['watch_ports_of_listed_wires'] = stats.get('watch_ports_of_listed_wires', 0) + 2 * nport
 
 
 def observe(run, make, vectors, case, stats, label, cycles_per_vector=1):
@@ -167,6 +226,11 @@ def observe(run, make, vectors, case, stats, label, cycles_per_vector=1):
         return None
     mon = Monitor(run, hw, case, stats, label)
     with muted():
+        try:
+            add_waveform_observers(hw, rng(0, 'C06', 'watch', label), stats)
+        except Exception as e:
+            stats['observer_failed'] = stats.get('observer_failed', 0) + 1
+            stats.setdefault('sim_raised_examples', []).append('%s: waveform observer %r' % (label, e))
         cls['Probe'](hw, 'verif_probe', mon.scan)
     per_vector = []
     with hooks.install(keep_events=False, contracts=True) as rec:
@@ -185,6 +249,7 @@ def observe(run, make, vectors, case, stats, label, cycles_per_vector=1):
                 per_vector.append(rec.raw_oor - before)
         except Exception as e:
             stats['sim_raised'] = stats.get('sim_raised', 0) + 1
+            mon.crashed = True
             ex = stats.setdefault('sim_raised_examples', [])
             if len(ex) < 5:
                 ex.append('%s: %r' % (label, e))
@@ -457,11 +522,15 @@ def post_merge(run, tier, seed):
     for k, why in (('wire_observations', 'no wire was observed'), ('scans_probe', 'the clocking-phase probe never ran'),
                    ('scans_listener', 'the listener never ran'), ('scans_construct', 'nothing observed after construction'),
                    ('write_postconditions', 'no put/prepare/settle post-condition was evaluated'), ('events_prepare', 'no prepare event'),
-                   ('events_put', 'no put event'), ('captured_values', 'no StreamCapture/Waveform value was inspected')):
+                   ('events_put', 'no put event'), ('captured_values', 'no StreamCapture/Waveform value was inspected'),
+                   ('waveform_samples_compared', 'no Waveform sample was compared with the live wire'),
+                   ('watch_repeated_wires', 'no Waveform watch list with a repeated wire'), ('watch_ports_of_listed_wires', 'no watch list with a wire and one of its ports')):
         if not c.get(k):
             run.inconclusive.append(why)
     if c.get('catalogue_skipped_time') or c.get('compositions_skipped_time'):
         run.inconclusive.append('watchdog: %d catalogue / %d composition cases skipped' % (c.get('catalogue_skipped_time', 0), c.get('compositions_skipped_time', 0)))
+    if c.get('observer_failed'):
+        run.inconclusive.append('%d waveform observers could not be attached' % c['observer_failed'])
     if c.get('build_failed'):
         run.inconclusive.append('%d designs did not build: %s' % (c['build_failed'], run.extra.get('build_failed_examples', [])[:2]))
     if c.get('sim_raised', 0) > 0 or c.get('judge_raised', 0) > 0:
